@@ -115,3 +115,77 @@ fn generation_contract() {
     assert!(t.generation() == g0 + 2, "OBL queries-pure: read-only queries leave the generation alone");
     core::mem::forget(t);
 }
+
+// =========================================================================================
+// C11: remove_cells_by_keys - whenever cells were removed the generation is bumped, so every
+// dependent view (convex hull) sees the change; nothing removed => nothing bumped.
+// =========================================================================================
+use crate::core::collections::{FastHashMap, VertexKeySet};
+use slotmap::KeyData;
+
+const C_FRONTIER: u64 = 1;
+const C_REMOVE: u64 = 2;
+const C_REPAIR: u64 = 3;
+
+fn stub_frontier<T, U, V, const D: usize>(
+    _t: &mut Tds<T, U, V, D>, _keys: &[CellKey], _set: &CellKeySet,
+) -> (VertexKeySet, FastHashMap<VertexKey, CellKey>)
+where U: DataType, V: DataType {
+    vk_event(C_FRONTIER);
+    (VertexKeySet::default(), FastHashMap::default())
+}
+/// CONTRACT: removes those of the listed cells that exist and reports how many (any count <= len)
+fn stub_remove<T, U, V, const D: usize>(_t: &mut Tds<T, U, V, D>, keys: &[CellKey]) -> usize
+where U: DataType, V: DataType {
+    vk_event(C_REMOVE);
+    let n = VK_NCELLS.load(AOrd::Relaxed);
+    if n <= keys.len() { n } else { keys.len() }
+}
+fn stub_repair_incident<T, U, V, const D: usize>(
+    _t: &mut Tds<T, U, V, D>, _a: &VertexKeySet, _s: &CellKeySet, _c: &FastHashMap<VertexKey, CellKey>,
+) where U: DataType, V: DataType {
+    vk_event(C_REPAIR);
+}
+
+#[kani::proof]
+#[kani::unwind(6)]
+#[kani::stub(Tds::collect_removal_frontier_and_clear_neighbor_back_references, stub_frontier)]
+#[kani::stub(Tds::remove_cells_and_update_uuid_mappings, stub_remove)]
+#[kani::stub(Tds::repair_incident_cells_after_cell_removal, stub_repair_incident)]
+fn remove_cells_bumps_generation_contract() {
+    let mut t = Tds2::empty();
+    let g0: u64 = kani::any();
+    kani::assume(g0 < u64::MAX - 2);
+    t.generation.store(g0, Ordering::Relaxed);
+    let removed: usize = kani::any();
+    vk_reset(0, removed);
+    let nkeys: usize = kani::any();
+    kani::assume(nkeys <= 2);
+    let keys = [CellKey::from(KeyData::from_ffi(0x1_0000_0001)), CellKey::from(KeyData::from_ffi(0x1_0000_0002))];
+    let r = t.remove_cells_by_keys(&keys[..nkeys]);
+    let expect = if removed <= nkeys { removed } else { nkeys };
+    assert!(r == expect, "OBL count: reports the number of cells actually removed");
+    if r > 0 {
+        assert!(t.generation() == g0 + 1, "OBL bump-on-removal: whenever at least one cell was removed the generation is bumped (exactly once)");
+        assert!(vk_called(C_REPAIR), "OBL incidence-repaired: incident-cell pointers are repaired after a removal");
+    } else {
+        assert!(t.generation() == g0, "OBL no-bump-without-change: nothing removed => generation unchanged");
+    }
+    kani::cover!(r == 2, "COV two cells removed");
+    kani::cover!(r == 0 && nkeys > 0, "COV stale keys only");
+    core::mem::forget(t);
+}
+
+// remove_cell_by_key: removing a key that does not exist changes nothing and does not bump
+#[kani::proof]
+#[kani::unwind(6)]
+fn remove_missing_cell_contract() {
+    let mut t = Tds2::empty();
+    let g0: u64 = kani::any();
+    kani::assume(g0 < u64::MAX - 2);
+    t.generation.store(g0, Ordering::Relaxed);
+    let r = t.remove_cell_by_key(CellKey::from(KeyData::from_ffi(kani::any())));
+    assert!(r.is_none() && t.generation() == g0, "OBL missing-noop: removing a cell key that is not present returns None and leaves the generation alone");
+    core::mem::forget(r);
+    core::mem::forget(t);
+}
